@@ -33,8 +33,16 @@ def ssOf : SchemeSpecific → Option FecDec.SS
 def otiObj (o : Oti) : FecDec.Oti :=
   { scheme := schemeOf o.fecId, e := o.esl, b := o.maxSbl, parity := o.parity, ss := ssOf o.ss }
 
+/-- `oti.scheme_specific` in the session model's encoding `(kind, a, b, c)` -/
+def ssRecvOf : SchemeSpecific → Option (Nat × Nat × Nat × Nat)
+  | .none => none
+  | .rs m g => some (0, m, g, 0)
+  | .raptorq z n al => some (1, z, n, al)
+  | .raptor z n al => some (2, z, n, al)
+
 /-- `oti::Oti` as the session model forwards it -/
-def otiRecv (o : Oti) : Recv.Oti := { fec := o.fecId, esl := o.esl, msbl := o.maxSbl }
+def otiRecv (o : Oti) : Recv.Oti :=
+  { fec := o.fecId, esl := o.esl, msbl := o.maxSbl, parity := o.parity, ss := ssRecvOf o.ss }
 
 def cencObj (c : Nat) : ObjRecv.Cenc :=
   if c = 0 then .null else if c = 1 then .zlib else if c = 2 then .deflate else .gzip
@@ -60,6 +68,7 @@ def absRecv (d : List Nat) (p : AlcPkt) : Recv.Pkt :=
             | _ => none),
     plen := d.length - p.payloadOffset,
     dlen := d.length,
+    cenc := p.cenc,
     raw := d }
 
 /-- `Receiver::push_data` up to the call of `push`: parse, then the TSI comparison -/
